@@ -83,8 +83,8 @@ def run_case(case: dict[str, Any]) -> dict[str, Any]:  # noqa: C901, PLR0912, PL
     n = case["n"]
     mask = None if case["mask"] is None else list(case["mask"])
     free = np.ones(n, dtype=bool) if mask is None else np.array(mask, dtype=bool)
-    # (the domain of the result returned by a nested plan is not specified: nested runs are generated without transforms)
-    nested = case["nested"] and mask is not None and not free.all() and case["vscale"] is None
+    # (the nested function returns what its tracker holds - a user-domain result - as in the documented pattern)
+    nested = case["nested"] and mask is not None and not free.all()
     transforms = None
     if case["vscale"] is not None:
         transforms = OptModelTransforms(variables=VariableScaler(np.array(case["vscale"]), np.array(case["voff"])))
